@@ -119,6 +119,17 @@ func r13_2(c *Ctx, rule string) {
 		c.ObUnreachable(rule, base+"/chmod-not-for-symlinks", fn, as, c.callPred("os.Chmod"), "os.Chmod", "the source is a symlink")
 		c.ObPrecedes(rule, base+"/chmod-before-times", fn, no, c.checkedCallPred("os.Chmod"), c.callPred("copy.(*copier).copyFileTimestamp"), "a checked os.Chmod (not a symlink)", "copyFileTimestamp")
 	}
+	// chown clears setuid/setgid: it must not run again after the mode was set
+	for _, call := range c.P.CallsTo(fn, "os.Chmod") {
+		ex := c.explorer(fn)
+		ex.From = call
+		ex.Target = func(in ssa.Instruction, st *eng.State) bool {
+			return c.P.IsCallTo(in, "copy.Chown", "os.Lchown", "os.Chown")
+		}
+		ex.StopAtTarget = true
+		h := ex.Run()
+		c.R.Check(len(h) == 0 && !ex.Exhausted, rule, c.siteName(call)+"/no-chown-after", c.pos(call), "no ownership change after the mode was set", "the owner is changed after the mode was set: chown clears the setuid/setgid bits just applied")
+	}
 	c.ObSuccessNeeds(rule, base+"/success-needs-times", fn, nil, nil, c.checkedCallPred("copy.(*copier).copyFileTimestamp"), "a checked copyFileTimestamp")
 	c.ObSuccessNeeds(rule, base+"/success-needs-chown", fn, nil, nil, chown, "a checked Chown")
 	// owner provenance
